@@ -4,21 +4,30 @@ package main
 // verif_export_c06.go) over kube-client/fake with a generated directory of bash hooks. Every hook
 // appends one line per execution (hook, exit code, compact binding contexts) to a per-case log and exits
 // as its failure script says. The observation is the global execution log.
+// Faults of the enabling itself: a reactor of the fake dynamic client fails the initial LIST of a chosen
+// binding's monitor (AddMonitor) in chosen attempts of a hook's EnableKubernetesBindings task (c06Injector).
+// Secrets are created while the main queue works (a random trickle plus one after every failed execution).
 
 import (
 	"context"
 	"encoding/json"
 	"fmt"
+	"io"
 	"os"
 	"path/filepath"
 	"sort"
 	"strconv"
 	"strings"
+	"sync"
 	"syscall"
 	"time"
 
 	"github.com/deckhouse/deckhouse/pkg/log"
 	"github.com/flant/kube-client/fake"
+	"k8s.io/apimachinery/pkg/runtime"
+	fakedynamic "k8s.io/client-go/dynamic/fake"
+	clienttesting "k8s.io/client-go/testing"
+	goruntime "runtime"
 
 	"github.com/flant/shell-operator/pkg/hook/task_metadata"
 	htypes "github.com/flant/shell-operator/pkg/hook/types"
@@ -36,6 +45,8 @@ type c06Bind struct {
 	execSync bool
 	queue    string // "" = main
 	secret   bool   // watches Secrets (the kind the harness creates while the operator starts)
+	label    string // "": no label selector; else the binding selects c06fault=<label> (unique per binding: the
+	// fault injector recognises the binding's LIST calls by it; no object carries the label)
 }
 
 type c06Hook struct {
@@ -48,6 +59,9 @@ type c06Hook struct {
 	id      int    // 1-based rank in path order
 	yaml    bool
 	onlyCfg bool
+	// fault sequence of the hook's EnableKubernetesBindings task: kfail[a] is the 0-based position of the binding
+	// whose monitor cannot be created (the API server fails its initial LIST) in attempt a; the task is retried
+	kfail []int
 }
 
 func (h *c06Hook) config(ns string) string {
@@ -77,14 +91,23 @@ func (h *c06Hook) config(ns string) string {
 				if b.queue != "" {
 					k["queue"] = b.queue
 				}
+				if b.label != "" {
+					k["labelSelector"] = map[string]any{"matchLabels": map[string]string{"c06fault": b.label}}
+				}
 				ks = append(ks, k)
 			} else {
-				// v0 monitors drop the full objects (KeepFullObjectsInMemory=false) and MapV0 dereferences
-				// Objects[0].Object: any kubernetes Event delivered to a v0 hook crashes the process
-				// (observed; outside C06). v0 bindings therefore watch a kind with no objects.
-				kind = "Pod"
-				ks = append(ks, map[string]any{"name": b.name, "kind": kind, "event": []string{"add"},
-					"namespaceSelector": map[string]any{"matchNames": []string{ns}}})
+				// v0 bindings have no group, queue (always main) or executeHookOnSynchronization; those that
+				// watch Secrets get add Events (in the main queue, behind the startup tasks), the others watch
+				// a kind without objects
+				if !b.secret {
+					kind = "Pod"
+				}
+				k := map[string]any{"name": b.name, "kind": kind, "event": []string{"add"},
+					"namespaceSelector": map[string]any{"matchNames": []string{ns}}}
+				if b.label != "" {
+					k["selector"] = map[string]any{"matchLabels": map[string]string{"c06fault": b.label}}
+				}
+				ks = append(ks, k)
 			}
 		}
 		if h.v1 {
@@ -165,7 +188,21 @@ func c06GenHooks(rng *Rng, nHooks int, allowEvents bool) []*c06Hook {
 					}
 					b.secret = b.queue != ""
 				}
+				if allowEvents && !h.v1 {
+					b.secret = rng.Chance(50)
+				}
 				h.kube = append(h.kube, b)
+			}
+			// faults of the enabling itself: the EnableKubernetesBindings task fails 1-3 times, each time at
+			// some binding (mostly not the first one: the earlier bindings of that attempt are already set up)
+			if rng.Chance(30) {
+				for k := rng.Range(1, 3); k > 0; k-- {
+					pos := rng.Intn(nb)
+					if nb >= 2 && rng.Chance(60) {
+						pos = rng.Range(1, nb-1)
+					}
+					h.kfail = append(h.kfail, pos)
+				}
 			}
 		}
 		h.sched = rng.Chance(30)
@@ -184,7 +221,66 @@ func c06GenHooks(rng *Rng, nHooks int, allowEvents bool) []*c06Hook {
 	for i, h := range hooks {
 		h.id = i + 1
 	}
+	c06LabelFaultBindings(hooks)
 	return hooks
+}
+
+// c06LabelFaultBindings gives every binding named in a fault sequence its own label selector.
+func c06LabelFaultBindings(hooks []*c06Hook) {
+	for _, h := range hooks {
+		for _, pos := range h.kfail {
+			h.kube[pos].label = fmt.Sprintf("h%db%d", h.id, pos)
+		}
+	}
+}
+
+// c06Injector fails the initial LIST of a binding's monitor (kubeEventsManager.AddMonitor ->
+// CreateInformers -> loadExistedObjects) as the hooks' fault sequences say. The LIST calls of the
+// informers' reflectors (other goroutines, same selector) are never failed.
+type c06Injector struct {
+	mu      sync.Mutex
+	byID    map[int]*c06Hook
+	attempt map[int]int
+	fired   []string
+}
+
+func c06InAddMonitor() bool {
+	pcs := make([]uintptr, 64)
+	n := goruntime.Callers(2, pcs)
+	frames := goruntime.CallersFrames(pcs[:n])
+	for {
+		f, more := frames.Next()
+		if strings.HasSuffix(f.Function, ".AddMonitor") {
+			return true
+		}
+		if !more {
+			return false
+		}
+	}
+}
+
+func (in *c06Injector) react(a clienttesting.Action) (bool, runtime.Object, error) {
+	la, ok := a.(clienttesting.ListAction)
+	if !ok || la.GetListRestrictions().Labels == nil {
+		return false, nil, nil
+	}
+	sel := la.GetListRestrictions().Labels.String()
+	var id, pos int
+	if n, _ := fmt.Sscanf(sel, "c06fault=h%db%d", &id, &pos); n != 2 || !c06InAddMonitor() {
+		return false, nil, nil
+	}
+	in.mu.Lock()
+	defer in.mu.Unlock()
+	h := in.byID[id]
+	if h == nil {
+		return false, nil, nil
+	}
+	if k := in.attempt[id]; k < len(h.kfail) && h.kfail[k] == pos {
+		in.attempt[id]++
+		in.fired = append(in.fired, fmt.Sprintf("%d:%d", id, pos))
+		return true, nil, fmt.Errorf("the server is currently unable to handle the request")
+	}
+	return false, nil, nil
 }
 
 func c06Materialise(ns, dir, stateRoot, logPath string, hooks []*c06Hook) error {
@@ -253,7 +349,7 @@ func c06HookLine(h *c06Hook) string {
 	if h.sched {
 		s = 1
 	}
-	return fmt.Sprintf("hook %d v=%d os=%s sched=%d fails=%s kube=%s", h.id, v, os_, s, fl, joinStrs(ks))
+	return fmt.Sprintf("hook %d v=%d os=%s sched=%d fails=%s kube=%s kfail=%s", h.id, v, os_, s, fl, joinStrs(ks), joinInts(h.kfail))
 }
 
 type c06Exec struct {
@@ -311,10 +407,18 @@ func c06ParseLog(logPath string, byPath map[string]*c06Hook) ([]c06Exec, error) 
 				e.ctxs = append(e.ctxs, "s"+num(binding, "b"))
 			case typ == "Group":
 				e.ctxs = append(e.ctxs, "g"+num(grp, "g"))
-			case typ == "Event" || c[3] != "-":
+			case typ == "Event":
 				e.ctxs = append(e.ctxs, "e"+num(binding, "b"))
 			case typ == "Schedule" || binding == "every-second":
 				e.ctxs = append(e.ctxs, "c")
+			case typ == "-" && strings.HasPrefix(binding, "b"):
+				// the v0 rendering has no type: a context of a kubernetes binding is an Event when it carries
+				// a watch event (add/update/delete) — without one it is a Synchronization
+				if c[3] == "add" || c[3] == "update" || c[3] == "delete" {
+					e.ctxs = append(e.ctxs, "e"+num(binding, "b"))
+				} else {
+					e.ctxs = append(e.ctxs, "s"+num(binding, "b"))
+				}
 			default:
 				e.ctxs = append(e.ctxs, "x")
 			}
@@ -391,6 +495,20 @@ func c06Run(r *Run, c *Case, rng *Rng, hooks []*c06Hook, events bool) {
 	if rng.Bool() {
 		fc.CreateSimpleNamespaced(ns, "Secret", "s0")
 	}
+	inj := &c06Injector{byID: map[int]*c06Hook{}, attempt: map[int]int{}}
+	nFaults := 0
+	for _, h := range hooks {
+		inj.byID[h.id] = h
+		nFaults += len(h.kfail)
+	}
+	if nFaults > 0 {
+		dc, ok := fc.Client.Dynamic().(*fakedynamic.FakeDynamicClient)
+		if !ok {
+			c.Inconcl = "the fake cluster's dynamic client takes no reactors"
+			return
+		}
+		dc.PrependReactor("list", "*", inj.react)
+	}
 	ctx, cancel := context.WithCancel(context.Background())
 	defer cancel()
 	ms := metricstorage.NewMetricStorage(ctx, "c06_", true, log.NewNop())
@@ -427,7 +545,9 @@ func c06Run(r *Run, c *Case, rng *Rng, hooks []*c06Hook, events bool) {
 
 	// 3. run
 	op.VerifC06Run(func(q *queue.TaskQueue) {
-		q.ExponentialBackoffFn = func(int) time.Duration { return 3 * time.Millisecond }
+		// the retry delay: long enough for an Event task that was (wrongly) let through after a failed
+		// Synchronization to run in its own queue before the retry finishes
+		q.ExponentialBackoffFn = func(int) time.Duration { return 30 * time.Millisecond }
 		q.WaitLoopCheckInterval = 2 * time.Millisecond
 		q.DelayOnQueueIsEmpty = 5 * time.Millisecond
 		q.DelayOnRepeat = 2 * time.Millisecond
@@ -440,22 +560,60 @@ func c06Run(r *Run, c *Case, rng *Rng, hooks []*c06Hook, events bool) {
 			return
 		}
 		// Secrets appear while the main queue works through the startup tasks: the bindings that watch
-		// them get Events which must not overtake their Synchronization
+		// them get Events which must not overtake their Synchronization. Two sources: a random trickle (at
+		// most 40), and — coupled to the progress of the run, so that it does not depend on the speed of the
+		// machine — one Secret right after every failed startup execution that shows up in the execution log:
+		// a watched object changes during the retry delay of a failed Synchronization.
 		erng := NewRng(rng.U64())
-		for i := 1; i <= 40; i++ { // until the startup tasks are done
+		create := func(name string) {
+			defer func() {
+				if p := recover(); p != nil && os.Getenv("C06_DEBUG") != "" {
+					fmt.Fprintf(os.Stderr, "case %d: creating a Secret panicked: %v\n", c.Idx, p)
+				}
+			}()
+			fc.CreateSimpleNamespaced(ns, "Secret", name)
+		}
+		var off int64
+		newFailures := func() int {
+			f, err := os.Open(logPath)
+			if err != nil {
+				return 0
+			}
+			defer f.Close()
+			if _, err := f.Seek(off, 0); err != nil {
+				return 0
+			}
+			b, _ := io.ReadAll(f)
+			end := strings.LastIndexByte(string(b), '\n')
+			if end < 0 {
+				return 0
+			}
+			off += int64(end + 1)
+			n := 0
+			for _, l := range strings.Split(string(b[:end]), "\n") {
+				if fs := strings.SplitN(l, " ", 3); len(fs) == 3 && fs[1] != "0" {
+					n++
+				}
+			}
+			return n
+		}
+		randomLeft, triggered := 40, 0
+		nextRandom := time.Now().Add(time.Duration(erng.Range(10, 50)) * time.Millisecond)
+		for {
 			select {
 			case <-stopEvents:
 				return
-			case <-time.After(time.Duration(erng.Range(10, 50)) * time.Millisecond):
+			case <-time.After(4 * time.Millisecond):
 			}
-			func() {
-				defer func() {
-					if p := recover(); p != nil && os.Getenv("C06_DEBUG") != "" {
-						fmt.Fprintf(os.Stderr, "case %d: creating a Secret panicked: %v\n", c.Idx, p)
-					}
-				}()
-				fc.CreateSimpleNamespaced(ns, "Secret", fmt.Sprintf("ev%d", i))
-			}()
+			for k := newFailures(); k > 0 && triggered < 80; k-- {
+				triggered++
+				create(fmt.Sprintf("evf%d", triggered))
+			}
+			if randomLeft > 0 && time.Now().After(nextRandom) {
+				create(fmt.Sprintf("ev%d", 41-randomLeft))
+				randomLeft--
+				nextRandom = time.Now().Add(time.Duration(erng.Range(10, 50)) * time.Millisecond)
+			}
 		}
 	}()
 	deadline := time.Now().Add(45 * time.Second)
@@ -526,6 +684,10 @@ func c06Run(r *Run, c *Case, rng *Rng, hooks []*c06Hook, events bool) {
 	if nSched > 0 {
 		c.Note("has-schedule-executions")
 	}
+	inj.mu.Lock()
+	fired := append([]string{}, inj.fired...)
+	inj.mu.Unlock()
+	c.Op("enablefaults", joinStrs(fired))
 	c.Op("run", "log="+strings.Join(startup, ";")+";")
 	c.Oracle("log " + strings.Join(all, ";") + ";")
 
@@ -569,7 +731,20 @@ func c06Classify(c *Case, hooks []*c06Hook) {
 	}
 	eq := map[int]int{}
 	grouped, skipped, v0, fails := 0, 0, 0, 0
+	kfails, kfailsLater, v0kube := 0, 0, 0
 	for _, h := range hooks {
+		if len(h.kfail) > 0 {
+			kfails++
+		}
+		for _, p := range h.kfail {
+			if p > 0 {
+				kfailsLater++
+				break
+			}
+		}
+		if !h.v1 && len(h.kube) > 0 {
+			v0kube++
+		}
 		if h.order != nil {
 			eq[*h.order]++
 		}
@@ -611,7 +786,16 @@ func c06Classify(c *Case, hooks []*c06Hook) {
 	if fails > 0 {
 		c.Note("scripted-failures")
 	}
-	c.Nontrivial = n >= 2 && (mx >= 2 || grouped > 0 || skipped > 0 || fails > 0)
+	if kfails > 0 {
+		c.Note("enable-kubernetes-bindings-faults")
+	}
+	if kfailsLater > 0 {
+		c.Note("enable-fault-at-a-later-binding")
+	}
+	if v0kube > 0 {
+		c.Note("v0-hooks-with-kubernetes-bindings")
+	}
+	c.Nontrivial = n >= 2 && (mx >= 2 || grouped > 0 || skipped > 0 || fails > 0 || kfails > 0)
 }
 
 // c06OrderOnly: hook.Manager alone, up to 200 hooks, GetHooksInOrder compared directly.
@@ -671,7 +855,7 @@ func c06OrderOnly(r *Run, c *Case, rng *Rng, n int) {
 }
 
 func runC06(r *Run) {
-	r.Rule = "whole-operator starts: generated hook directories (1-25 bash hooks in nested paths, ORDER values drawn from a small pool so that many are equal, 30% of the cases one single ORDER; 0-4 kubernetes bindings per hook with groups g1/g2, queues, executeHookOnSynchronization true/false, v0 and v1 configs, every-second schedules, scripted exit codes for the first 1-3 startup executions of a hook) run by a real ShellOperator over kube-client/fake (ConfigMaps/Secrets present, Secrets created while the main queue runs for ungrouped bindings of other queues); back-off shortened through the public queue fields. Observation: GetHooksInOrder(OnStartup), the bootstrapped main queue, the global execution log written by the hooks. Thorough adds the exhaustive scope of one v1 hook with every list of 1-3 bindings over {no group, g1, g2} x {flag true, false} (258 starts). Plus order-only cases: hook.Manager with 13-200 onStartup hooks, GetHooksInOrder compared directly. Non-trivial: >= 2 hooks and (equal ORDER values, or grouped bindings, or a binding with executeHookOnSynchronization=false, or scripted failures); distinct = distinct hook-line sequences."
+	r.Rule = "whole-operator starts: generated hook directories (1-25 bash hooks in nested paths, ORDER values drawn from a small pool so that many are equal, 30% of the cases one single ORDER; 0-4 kubernetes bindings per hook with groups g1/g2, queues, executeHookOnSynchronization true/false, v0 and v1 configs, every-second schedules, scripted exit codes for the first 1-3 startup executions of a hook; for 30% of the hooks with kubernetes bindings a fault sequence of the enabling itself: the EnableKubernetesBindings task fails 1-3 times, each time because the API server fails the initial LIST of one chosen binding's monitor — mostly not the first one — injected by a reactor of the fake dynamic client that recognises the binding by its own label selector) run by a real ShellOperator over kube-client/fake (ConfigMaps/Secrets present, Secrets created while the main queue runs for ungrouped bindings of other queues and for v0 bindings); back-off shortened through the public queue fields. Observation: GetHooksInOrder(OnStartup), the bootstrapped main queue, the global execution log written by the hooks (v0 binding contexts have no type: one of a kubernetes binding without a watch event counts as a Synchronization), the faults that were injected. Thorough adds the exhaustive scope of one v1 hook with every list of 1-3 bindings over {no group, g1, g2} x {flag true, false} (258 starts). Plus order-only cases: hook.Manager with 13-200 onStartup hooks, GetHooksInOrder compared directly. Non-trivial: >= 2 hooks and (equal ORDER values, or grouped bindings, or a binding with executeHookOnSynchronization=false, or scripted failures); distinct = distinct hook-line sequences."
 	r.CaseTimeout = 120 * time.Second
 	ip := func(i int) *int { return &i }
 	mk := func(hs ...*c06Hook) []*c06Hook {
@@ -712,6 +896,29 @@ func runC06(r *Run) {
 		)
 		c06Classify(c, hs)
 		c06Run(r, c, rng, hs, false)
+	})
+	r.One(3, func(c *Case, rng *Rng) {
+		c.Desc = "corpus: the EnableKubernetesBindings task of a hook fails at its second binding, then at its third, then succeeds; another hook's fails at its only binding twice"
+		hs := mk(
+			&c06Hook{path: "a.sh", v1: true, kube: []c06Bind{{name: "b1", execSync: true}, {name: "b2", execSync: true, queue: "q1"}, {name: "b3", group: 1, execSync: true}}, kfail: []int{1, 2}, sched: true},
+			&c06Hook{path: "b.sh", v1: true, order: ip(1), kube: []c06Bind{{name: "b1", execSync: true}}, kfail: []int{0, 0}, fails: []bool{true}},
+			&c06Hook{path: "c.sh", v1: true, kube: []c06Bind{{name: "b1", group: 2, execSync: true}, {name: "b2", group: 2, execSync: true}}, kfail: []int{1}},
+		)
+		c06LabelFaultBindings(hs)
+		c06Classify(c, hs)
+		c06Run(r, c, rng, hs, false)
+	})
+	r.One(4, func(c *Case, rng *Rng) {
+		c.Desc = "corpus: a v0 hook with two onKubernetesEvent bindings (one of them gets add Events) between a v1 hook and a v1 hook with executeHookOnSynchronization=false"
+		hs := mk(
+			&c06Hook{path: "a_v1.sh", v1: true, kube: []c06Bind{{name: "b1", execSync: true}}},
+			&c06Hook{path: "b_v1_off.sh", v1: true, kube: []c06Bind{{name: "b1", execSync: false}}},
+			&c06Hook{path: "c_v0.sh", v1: false, order: ip(3), kube: []c06Bind{{name: "b1", execSync: true, secret: true}, {name: "b2", execSync: true}}, kfail: []int{1}},
+		)
+		c06LabelFaultBindings(hs)
+		c06Classify(c, hs)
+		c.Nontrivial = true
+		c06Run(r, c, rng, hs, true)
 	})
 	n := r.N(48, 400)
 	par := 5 // more parallel operators starve the informers: Events during startup become rare
